@@ -23,7 +23,7 @@ def make(kind, radius, search, ro, ut_shape=None):
     return p, {'kind': kind, 'radius': radius, 'search': search, 'radius_outer': ro}
 
 
-def gen(rng, small=False):
+def gen(rng, small=False, wide=False):
     kind = KINDS[int(rng.integers(0, 5))]
     radius = float(rng.choice([2, 2.5, 3, 3.3]) if small else rng.choice([2, 2.5, 3, 3.7, 4, 5, 6.5, 8, 10.25, 14]))
     sf = float(rng.uniform(1.25, 2.5)) if not small else float(rng.choice([1.3, 1.5, 2.0]))
@@ -59,6 +59,10 @@ def gen(rng, small=False):
         # a background beyond the float32 integer range (2**24): sharp disk with an even amplitude, so that every pixel value is
         # exactly representable in float32 and the premise 'flat disk on a uniform background' holds exactly
         bg, amp, aa = int(rng.choice([30000000, -30000000, 2 ** 25])), int(rng.choice([20, 400])), False
+        if wide and rng.random() < 0.5:
+            # ... or a pedestal that only a wider dtype holds: the frame is then passed in that dtype
+            bg, fdt = [(10 ** 9, 'float64'), (2 ** 33, 'int64'), (3 * 2 ** 30, 'uint32'), (-10 ** 9, 'float64')][int(rng.integers(0, 4))]
+            return dict(desc=desc, radius=radius, shape=(fy, fx), p=p, off=off, amp=amp, bg=bg, aa=aa, fdtype=fdt)
     return dict(desc=desc, radius=radius, shape=(fy, fx), p=p, off=off, amp=amp, bg=bg, aa=aa)
 
 
@@ -77,7 +81,7 @@ def stmt_failure(c, upsample=False):
     pattern = cl.pattern_from_desc(c['desc'])
     x = render(c)
     peak = (c['p'][0] + c['off'][0], c['p'][1] + c['off'][1])
-    frames = x[np.newaxis].astype(np.float32)
+    frames = x[np.newaxis].astype(c.get('fdtype', 'float32'))
     for name, fn in (('process_frames_fast', cc.process_frames_fast), ('process_frames_full', cc.process_frames_full)):
         try:
             cen, ref, hei, ele = fn(pattern, frames, np.array([peak]), upsample=upsample)
@@ -316,7 +320,7 @@ def run(ctx):
     while len(items) < ctx.n(16, 120) and tries < 2000:
         tries += 1
         c = gen(rng, small=True)
-        if c is None:
+        if c is None or c.get('fdtype'):          # (the kernels of this stage take float32 frames: pedestals beyond float32 go through the batch functions below)
             continue
         c['aa'] = False
         pattern = cl.pattern_from_desc(c['desc'])
@@ -397,7 +401,7 @@ def run(ctx):
     tries = 0
     while n < ctx.n(150, 3000) and tries < 20000:
         tries += 1
-        c = gen(rng)
+        c = gen(rng, wide=True)
         if c is None:
             continue
         n += 1
@@ -416,7 +420,7 @@ def run(ctx):
             ctx.violation('input', fail, {'kind': 'input', 'call': 'process_frames_fast/full', 'args': {'case': c, 'upsample': ups}, 'failure': fail}, signature=classify(fail, c))
             if len(ctx.violations) > nv:
                 break
-        if n % 3 == 0:
+        if n % 3 == 0 and not c.get('fdtype'):          # (the stand-alone kernel below is run on float32 frames)
             starts = gen_starts(rng, c)
             nb = int(rng.integers(1, len(starts) + 1))
             ups2 = [False, True, 2, 4, 10][int(rng.integers(0, 5))]
